@@ -13,4 +13,13 @@ MUTANTS = [
     ("dt_control_swap", SM, "intg_res = intg(x0=X[-1], u=U, t0=t0_local, DT=DT, DT_control=T, p=P, z0=Z0_current)", "intg_res = intg(x0=X[-1], u=U, t0=t0_local, DT=DT, DT_control=DT, p=P, z0=Z0_current)", ["C01"]),
     ("ms_gap_wrong_T", MS, "T=self.control_grid[k + 1] - self.control_grid[k], p=self.get_p_sys(stage, k), z0=self.Z0[k])", "T=self.control_grid[1] - self.control_grid[0], p=self.get_p_sys(stage, k), z0=self.Z0[k])", ["C01"]),
     ("ss_wrong_t0", SS, "FF = F(x0=self.X[k], u=self.U[k], t0=self.control_grid[k],", "FF = F(x0=self.X[k], u=self.U[k], t0=self.control_grid[0],", ["C01"]),
+    # --- C04
+    ("ms_include_flags_swapped", MS, "                if k==0 and not args[\"include_first\"]: continue\n                try:", "                if k==0 and not args[\"include_last\"]: continue\n                try:", ["C04"]),
+    ("final_node_offset_control_U0", SM, "u = self.U[-1] if k==len(self.U) else self.U[k]", "u = self.U[0] if k==len(self.U) else self.U[k]", ["C04"]),
+    ("dc_integrator_include_first_whole_interval", DC, "                    if k==0 and i==0 and not args[\"include_first\"]: continue", "                    if k==0 and not args[\"include_first\"]: continue", ["C04"]),
+    ("integrator_time_of_first_step", SM, "                                                               t=self.integrator_grid[k][i],", "                                                               t=self.integrator_grid[k][0],", ["C04"]),
+    ("root_state_first_column", SM, "                                                               x=self.xr[k][i][:,j],", "                                                               x=self.xr[k][i][:,0],", ["C04"]),
+    ("point_constraints_after_dropped", SM, "            if 'r_at_tf' in [a.name() for a in symvar(e)]:\n                opti.subject_to(e, args[\"scale\"], meta=meta)", "            if 'r_at_tf' in [a.name() for a in symvar(e)] and len(symvar(e))<3:\n                opti.subject_to(e, args[\"scale\"], meta=meta)", ["C04"]),
+    ("p_control_plus_final_node_last_interval", SM, "    def get_p_control_plus_at(self, stage, k=-1):\n        return veccat(*[p[k] for p in self.P_control_plus])", "    def get_p_control_plus_at(self, stage, k=-1):\n        return veccat(*[p[k if k!=-1 else -2] for p in self.P_control_plus])", ["C04"]),
+    ("ss_control_constraint_last_twice", SS, "                opti.subject_to(self.eval_at_control(stage, c, -1), scale=args[\"scale\"], meta=meta)", "                opti.subject_to(self.eval_at_control(stage, c, self.N-1), scale=args[\"scale\"], meta=meta)", ["C04"]),
 ]
